@@ -900,7 +900,7 @@ def thrift_grammar(rng):
 
 def thrift_nested(rng):
     """one unknown field made of k nested list / struct / map headers (recursion depth of thrift_skip)"""
-    k = rng.choice([1, 5, 30, 31, 32, 33, 34, 64, 200, 1000, 5000])
+    k = rng.choice([1, 5, 30, 31, 32, 33, 34, 64, 200, 1000, 5000, 5000, 100000, 300000])
     unit = rng.choice([b"\x19", b"\x1c", b"\x1c\x1c", b"\x01\xcc", b"\x1b\x01\x5c", b"\x19\x1c"])
     fid = rng.choice([0x90, 0xF0, 0x10])
     t = {b"\x19": T_LIST, b"\x1c": T_STRUCT, b"\x1c\x1c": T_STRUCT, b"\x01\xcc": T_MAP, b"\x1b\x01\x5c": T_MAP, b"\x19\x1c": T_LIST}[unit]
@@ -1086,9 +1086,9 @@ def run_cases(rep, drv, cases, stats, label=""):
     lines = [c.line() for c in cases]
     outs, probs = run_sharded(drv, lines, timeout=1800)
     for pr in probs:
-        # the supervisor itself died or a worker failed at exit (LeakSanitizer): attributable to a shard only
-        rep.violation(f"h_dec supervisor/worker failed outside a case (rc={pr[1]}): {pr[2][-500:]}",
-                      {"case": pr[3], "note": "shard-level failure; worker exit = LeakSanitizer verdict"})
+        # the supervisor itself died or a worker failed at exit (LeakSanitizer): attributable to a shard only;
+        # reported after the per-case verdicts (a per-case "VIOL leak" names the input)
+        stats.setdefault("shard_problems", []).append((pr[1], pr[2][-500:], pr[3]))
     res = []
     ubs = []
     for c, li, o in zip(cases, lines, outs):
@@ -1157,6 +1157,9 @@ def flush_violations(rep, stats):
         rep.violation(f"{op}: {what}  ({cnt} case(s) of this kind)", {"case": li, "entry_point": op},
                       key=f"{op}:{site_of(what)}")
     stats["violations"] = []
+    for rc, err, case in stats.pop("shard_problems", []):
+        rep.violation(f"h_dec supervisor/worker failed outside a case (rc={rc}): {err}",
+                      {"case": case, "note": "shard-level failure: LeakSanitizer verdict at worker exit, or the supervisor died"})
 
 
 def run(tier):
